@@ -195,7 +195,100 @@ fn fname(fs: Fs, i: usize, dir: &str) -> String {
 }
 
 /// an operation history on a fresh volume, then every observation C20 lists
-fn disk_case(rng: &mut Rng, fs: Fs, variant: usize, obs: &mut Obs) -> String {
+// ------------------------------------------------------------------------------------------------ reads are pure
+//
+// Image objects keep incidental state between calls (the head position / bit pointer of nibble images, the current track
+// of IMD / TD0, caches).  A read-only output must be a function of the image alone: every such output is computed (a) on
+// a FRESH object opened from the image bytes and (b) on an object opened from the same bytes after a random sequence of
+// OTHER read-only operations; the two must be identical (oracle `prior-reads`, sig `c20/<op>/depends-on-prior-reads`).
+
+fn image_ext(label: &str) -> &'static str {
+    let c = label.rsplit('/').next().unwrap_or("");
+    if c.starts_with("woz") { "woz" } else if c == "nib" { "nib" } else if c == "d13" { "d13" } else if c == "po" { "po" } else if c == "2mg" { "2mg" }
+    else if c.starts_with("imd") { "imd" } else if c.starts_with("td0") { "td0" } else if c.starts_with("img") { "img" } else { "do" }
+}
+
+/// image-level read-only operations (no file system involved); None = not an image-level operation
+fn img_op(img: &mut Box<dyn DiskImage>, op: &str) -> Option<Vec<u8>> {
+    let (name, arg) = match op.find(':') { Some(p) => (&op[..p], &op[p + 1..]), None => (op, "") };
+    let num = |a: &str| a.parse::<usize>().unwrap_or(0);
+    Some(match name {
+        "geometry" => res_bytes(img.export_geometry(None)),
+        "metadata" => img.get_metadata(None).into_bytes(),
+        "to-bytes" => img.to_bytes(),
+        "track-nibbles" => match img.get_track_nibbles(num(arg), 0) { Ok(v) => v, Err(e) => format!("<err {}>", e).into_bytes() },
+        "track-buf" => match img.get_track_buf(num(arg), 0) { Ok(v) => v, Err(e) => format!("<err {}>", e).into_bytes() },
+        // the fields of `TrackSolution` are private: only whether the track was solved (its content is in `geometry`)
+        "track-solution" => match img.get_track_solution(num(arg)) { Ok(Some(_)) => b"<solved>".to_vec(), Ok(None) => b"<none>".to_vec(), Err(e) => format!("<err {}>", e).into_bytes() },
+        _ => return None,
+    })
+}
+
+/// one read-only operation on an open disk; `op` = name[:argument]
+fn read_op(disk: &mut Box<dyn DiskFS>, op: &str, root: &str) -> Vec<u8> {
+    if let Some(v) = img_op(disk.get_img(), op) { return v; }
+    let (name, arg) = match op.find(':') { Some(p) => (&op[..p], &op[p + 1..]), None => (op, "") };
+    match name {
+        "catalog" => match disk.catalog_to_vec(if arg.is_empty() { root } else { arg }) { Ok(v) => v.join("\n").into_bytes(), Err(e) => format!("<err {}>", e).into_bytes() },
+        "tree" => res_bytes(disk.tree(true, None)),
+        "stat" => match disk.stat() { Ok(s) => s.to_json(None).into_bytes(), Err(e) => format!("<err {}>", e).into_bytes() },
+        "glob" => match disk.glob("*", false) { Ok(v) => v.join("\n").into_bytes(), Err(e) => format!("<err {}>", e).into_bytes() },
+        "get" => match disk.get(arg) { Ok(f) => f.to_json(None).into_bytes(), Err(e) => format!("<err {}>", e).into_bytes() },
+        _ => b"<unknown-op>".to_vec(),
+    }
+}
+
+fn prior_reads_check(rng: &mut Rng, idx: usize, label: &str, bytes: &Vec<u8>, files: &[String], dirs: &[String], root: &str, obs: &mut Obs, reuse: &mut Reuse) {
+    let ext = image_ext(label);
+    let open = || a2kit::create_fs_from_bytestream(bytes, Some(ext)).ok();
+    if open().is_none() { ob(obs, "prior-reads-verdict", b"<not-reopened>".to_vec()); return; }
+    let mut ops: Vec<String> = ["geometry", "metadata", "catalog", "tree", "stat", "glob", "to-bytes", "track-nibbles:0", "track-nibbles:1", "track-buf:0", "track-solution:0", "track-solution:2"]
+        .iter().map(|s| s.to_string()).collect();
+    for d in dirs.iter().skip(1).take(2) { ops.push(format!("catalog:{}", d)); }
+    let mut fl: Vec<String> = files.to_vec();
+    for k in (1..fl.len()).rev() { let j = rng.below(k + 1); fl.swap(k, j); }
+    for f in fl.iter().take(4) { ops.push(format!("get:{}", f)); }
+    let mut failed: Vec<String> = Vec::new();
+    for x in ops.clone().iter() {
+        let mut fresh = match open() { Some(d) => d, None => continue };
+        let a = read_op(&mut fresh, x, root);
+        let mut used = match open() { Some(d) => d, None => continue };
+        let mut prior: Vec<String> = Vec::new();
+        for _ in 0..rng.range(2, 5) {
+            let p = ops[rng.below(ops.len())].clone();
+            // the expensive exports are used as prior operations now and then only
+            if p == *x || ((p == "geometry" || p == "to-bytes") && !rng.chance(25)) { continue; }
+            let _ = read_op(&mut used, &p, root);
+            prior.push(p);
+        }
+        // always at least one real sector read (a file, or the catalog): that is what leaves the head somewhere
+        if !prior.iter().any(|p| p.starts_with("get:") || p.starts_with("catalog")) {
+            let p = match fl.get(rng.below(fl.len().max(1))) { Some(f) if !x.starts_with("get:") => format!("get:{}", f), _ => "catalog".to_string() };
+            let _ = read_op(&mut used, &p, root);
+            prior.push(p);
+        }
+        let b = read_op(&mut used, x, root);
+        let class = x.split(':').next().unwrap_or(x);
+        // image-level outputs also against the bare image object (no file system opened on it: opening one already reads
+        // sectors, and some file systems touch the image again in `get_img()`, which would mask the head position)
+        let bare = a2kit::create_img_from_bytestream(bytes, Some(ext)).ok().and_then(|mut im| img_op(&mut im, x));
+        if let Some(a0) = &bare {
+            let same0 = *a0 == a;
+            if !same0 { failed.push(format!("{}@fs-open", x)); }
+            let fd = a0.iter().zip(a.iter()).position(|(p, q)| p != q).unwrap_or(a0.len().min(a.len()));
+            reuse.push((format!("c20/{}/depends-on-prior-reads", class), same0,
+                format!("idx={} op={} image={} ({} bytes) prior-reads=[opening the file system on the image] bare-image-len={} after-open-len={} first-difference-at={}", idx, x, label, bytes.len(), a0.len(), a.len(), fd)));
+        }
+        let same = a == b;
+        if !same { failed.push(x.clone()); }
+        let first_diff = a.iter().zip(b.iter()).position(|(p, q)| p != q).unwrap_or(a.len().min(b.len()));
+        reuse.push((format!("c20/{}/depends-on-prior-reads", class), same,
+            format!("idx={} op={} image={} ({} bytes) prior-reads=[{}] fresh-len={} after-reads-len={} first-difference-at={}", idx, x, label, bytes.len(), prior.join(", "), a.len(), b.len(), first_diff)));
+    }
+    ob(obs, "prior-reads-verdict", failed.join(",").into_bytes());
+}
+
+fn disk_case(rng: &mut Rng, fs: Fs, variant: usize, obs: &mut Obs, reuse: &mut Reuse, idx: usize) -> String {
     let (mut disk, label) = match mk_disk(fs, variant) { Ok(x) => x, Err(e) => { ob(obs, "mkdisk", format!("err {}", e).into_bytes()); return format!("{:?}/{} mk-failed", fs, variant); } };
     let mut desc = label.clone();
     let hier = fs == Fs::Prodos || fs == Fs::Fat;
@@ -293,7 +386,9 @@ fn disk_case(rng: &mut Rng, fs: Fs, variant: usize, obs: &mut Obs) -> String {
     ob_res(obs, "geometry", disk.get_img().export_geometry(None), |s| s.into_bytes());
     ob(obs, "metadata", disk.get_img().get_metadata(None).into_bytes());
     ob(obs, "metadata", disk.get_img().get_metadata(Some(2)).into_bytes());
-    ob(obs, "img-bytes", disk.get_img().to_bytes());
+    let bytes = disk.get_img().to_bytes();
+    ob(obs, "img-bytes", bytes.clone());
+    prior_reads_check(rng, idx, &label, &bytes, &live, &dirs, root, obs, reuse);
     desc
 }
 
@@ -678,18 +773,18 @@ fn run_case(seed: u64, idx: usize, plan: Plan) -> (String, Obs, Option<RecCase>,
     let desc = match kind {
         0 | 8 => { let (d, r) = records_case(&mut rng, false, &mut obs); rc = Some(r); d }
         1 => { let (d, r) = records_case(&mut rng, true, &mut obs); rc = Some(r); d }
-        2 => disk_case(&mut rng, Fs::Dos33, variant * 3, &mut obs),
-        3 => disk_case(&mut rng, Fs::Prodos, variant * 4, &mut obs),
-        4 => disk_case(&mut rng, Fs::Pascal, variant, &mut obs),
-        5 => disk_case(&mut rng, Fs::Cpm, variant * 4, &mut obs),
-        6 => disk_case(&mut rng, Fs::Fat, variant * 3, &mut obs),
+        2 => disk_case(&mut rng, Fs::Dos33, variant * 3, &mut obs, &mut reuse, idx),
+        3 => disk_case(&mut rng, Fs::Prodos, variant * 4, &mut obs, &mut reuse, idx),
+        4 => disk_case(&mut rng, Fs::Pascal, variant, &mut obs, &mut reuse, idx),
+        5 => disk_case(&mut rng, Fs::Cpm, variant * 4, &mut obs, &mut reuse, idx),
+        6 => disk_case(&mut rng, Fs::Fat, variant * 3, &mut obs, &mut reuse, idx),
         7 | 15 => lang_case(&mut rng, &mut obs),
-        9 => disk_case(&mut rng, Fs::Cpm, variant * 4 + 1 + variant % 3, &mut obs),
-        10 => disk_case(&mut rng, Fs::Fat, variant * 3 + 1 + variant % 2, &mut obs),
-        11 => disk_case(&mut rng, Fs::Prodos, variant * 4 + 1 + variant % 3, &mut obs),
-        12 => disk_case(&mut rng, Fs::Dos33, variant * 3 + 1 + variant % 2, &mut obs),
-        13 => disk_case(&mut rng, Fs::Dos32, variant, &mut obs),
-        _ => disk_case(&mut rng, Fs::Cpm, 3, &mut obs),
+        9 => disk_case(&mut rng, Fs::Cpm, variant * 4 + 1 + variant % 3, &mut obs, &mut reuse, idx),
+        10 => disk_case(&mut rng, Fs::Fat, variant * 3 + 1 + variant % 2, &mut obs, &mut reuse, idx),
+        11 => disk_case(&mut rng, Fs::Prodos, variant * 4 + 1 + variant % 3, &mut obs, &mut reuse, idx),
+        12 => disk_case(&mut rng, Fs::Dos33, variant * 3 + 1 + variant % 2, &mut obs, &mut reuse, idx),
+        13 => disk_case(&mut rng, Fs::Dos32, variant, &mut obs, &mut reuse, idx),
+        _ => disk_case(&mut rng, Fs::Cpm, 3, &mut obs, &mut reuse, idx),
     };
     (desc, obs, rc, reuse)
 }
@@ -732,6 +827,20 @@ fn sig_for(op: &str) -> String {
 }
 
 pub fn run(ctx: &mut Ctx) {
+    if std::env::var("A2V_C20_PROBE").is_ok() {
+        // debugging aid: head dependence of track dumps / geometry on a DOS 3.3 WOZ2 image
+        let (mut disk, label) = mk_disk(Fs::Dos33, 1).unwrap();
+        for i in 0..5 { let _ = disk.bsave(&format!("F{}", i), &vec![i as u8; 700 * (i + 1)], Some(0x2000), None); }
+        let bytes = disk.get_img().to_bytes();
+        for prior in [vec![], vec!["catalog"], vec!["get:F3"], vec!["get:F1", "get:F4"]] {
+            let mut d = a2kit::create_fs_from_bytestream(&bytes, Some(image_ext(&label))).unwrap();
+            for p in prior.iter() { let r = read_op(&mut d, p, ""); eprintln!("   {} -> {} bytes", p, r.len()); }
+            let n = read_op(&mut d, "track-nibbles:0", "");
+            let g = read_op(&mut d, "geometry", "");
+            eprintln!("{} prior={:?} nibbles[0..24]={} geometry-digest={:016x}", label, prior, hx(&n[..24.min(n.len())]), fnv(&g));
+        }
+        return;
+    }
     if std::env::var(CHILD_ENV).is_ok() { child(ctx); return; }
     let plan = Plan::of(ctx);
     let nproc = ctx.n(8, 64);
@@ -751,7 +860,7 @@ pub fn run(ctx: &mut Ctx) {
         let r2 = guarded(move || run_case(seed, idx, plan));
         match (r1, r2) {
             (Ok((desc, obs1, rc, reuse)), Ok((_, obs2, _, _))) => {
-                for (sig, pass, detail) in &reuse { ctx.out.oracle(*pass, "object-reuse", sig, detail); }
+                for (sig, pass, detail) in &reuse { ctx.out.oracle(*pass, if sig.ends_with("depends-on-prior-reads") { "prior-reads" } else { "object-reuse" }, sig, detail); }
                 if !reuse.is_empty() { ctx.out.count_n("object-reuse-comparisons", reuse.len() as u64); }
                 let d1 = digests(&obs1);
                 let d2 = digests(&obs2);
